@@ -55,6 +55,8 @@ class SymStr:
     def _eq(self, other):
         if not self.sym:
             return self.name == other
+        if not isinstance(other, str):
+            return False                        # a configured value is a string
         other = str(other)
         if other not in self.cache:
             b = z3.Bool('%s==%s' % (self.name, other))
@@ -304,7 +306,10 @@ GH_EVENTS = ['pull_request', 'issue_comment', 'pull_request_review', 'status', '
              'push', 'ping']
 
 
-def webhook_call(host, event, creds, v, sym, inprogress=False, sent=None):
+REPO_SHAPES = ['full', 'absent', 'null', 'empty', 'no-identity']
+
+
+def webhook_call(host, event, creds, v, sym, inprogress=False, sent=None, repo_shape='full'):
     import flask
     import bert_e.server.webhook as wh
     import bert_e.git_host.github as gh
@@ -339,6 +344,16 @@ def webhook_call(host, event, creds, v, sym, inprogress=False, sent=None):
         headers['X-Github-Event'] = event
         data = {'repository': {'full_name': 'owner/slug'}}
         path, fn = '/github', 'parse_github_webhook'
+    # what the delivery says about its repository: the identity, nothing, null, an empty object,
+    # an object without the identity fields
+    if repo_shape == 'absent':
+        data.pop('repository')
+    elif repo_shape == 'null':
+        data['repository'] = None
+    elif repo_shape == 'empty':
+        data['repository'] = {}
+    elif repo_shape == 'no-identity':
+        data['repository'] = {'id': 1, 'private': True}
     pr = types.SimpleNamespace(id=7)
     st = types.SimpleNamespace(key='pre-merge', state=state)
     stubs = {
@@ -358,7 +373,13 @@ def webhook_call(host, event, creds, v, sym, inprogress=False, sent=None):
     try:
         with app.test_request_context(path, method='POST', data=json.dumps(data), headers=headers):
             view = [f for ep, f in app.view_functions.items() if ep.endswith(fn)][0]
-            resp = view()
+            try:
+                resp = view()
+            except (KeyError, AttributeError, TypeError) as e:
+                if repo_shape == 'full':
+                    raise
+                # a payload the view cannot read: flask answers 500 for an unhandled exception
+                resp = types.SimpleNamespace(status_code=500)
     finally:
         for (mod, n), f in saved.items():
             setattr(mod, n, f)
@@ -392,16 +413,19 @@ def webhook_harness(cfg):
         event = events[ctx.choose('event', len(events))]
         creds = ctx.decide(z3.Bool('credentials_sent'))
         inprogress = ctx.decide(z3.Bool('state_inprogress'))
+        shape = REPO_SHAPES[ctx.choose('payload_repository', len(REPO_SHAPES))]
         app, berte = get_app()
         cfg_login = SymStr('configured_login', True)
         # run with symbolic configured values
-        status, jobs, ids = _webhook_sym(host, configured_host, event, creds, inprogress)
+        status, jobs, ids = _webhook_sym(host, configured_host, event, creds, inprogress, shape)
         login_ok = z3.Bool('configured_login==sent-login')
         pwd_ok = z3.Bool('configured_pwd==sent-pwd')
         if host == 'bitbucket':
             ident = z3.And(z3.Bool('configured_owner==owner'), z3.Bool('configured_slug==slug'))
         else:
             ident = z3.Bool('configured_full_name==owner/slug')
+        if shape != 'full':
+            ident = z3.BoolVal(False)          # a delivery that does not say which repository it is about
         auth = z3.And(z3.BoolVal(creds), login_ok, pwd_ok)
         want = z3.And(auth, ident, z3.BoolVal(handled(host, event, inprogress)))
         conds = [('webhook job enqueued iff credentials, repository and event fit',
@@ -421,28 +445,31 @@ def webhook_harness(cfg):
                     for sname in sent:
                         if model_value(m, z3.Bool('configured_%s==%s' % (k, sname))) is True:
                             vals[k] = sname
-                return dict(bad=dict(vals, event=event, creds=creds, inprogress=inprogress),
+                return dict(bad=dict(vals, event=event, creds=creds, inprogress=inprogress, repo_shape=shape),
                             label=label, status=status, njobs=len(jobs))
         return dict(bad=None, label=None, status=status, njobs=len(jobs), event=event)
     return h
 
 
-def _webhook_sym(host, configured_host, event, creds, inprogress):
+def _webhook_sym(host, configured_host, event, creds, inprogress, shape='full'):
     app, berte = get_app()
     v = {}
-    status, jobs, ids = webhook_call(host, event, creds, v, True, inprogress) \
+    status, jobs, ids = webhook_call(host, event, creds, v, True, inprogress, repo_shape=shape) \
         if configured_host == 'same' else (None, None, None)
     return status, jobs, ids
 
 
 def webhook_concrete(host, configured_host, bad):
     app, berte = get_app()
-    status, jobs, _ = webhook_call(host, bad['event'], bad['creds'], bad, False, bad['inprogress'])
+    status, jobs, _ = webhook_call(host, bad['event'], bad['creds'], bad, False, bad['inprogress'],
+                                   repo_shape=bad.get('repo_shape', 'full'))
     auth = bad['creds'] and bad['login'] == 'sent-login' and bad['pwd'] == 'sent-pwd'
     if host == 'bitbucket':
         ident = bad['owner'] == 'owner' and bad['slug'] == 'slug'
     else:
         ident = bad['full_name'] == 'owner/slug'
+    if bad.get('repo_shape', 'full') != 'full':
+        ident = False
     want = auth and ident and handled(host, bad['event'], bad['inprogress'])
     return (len(jobs) == 1) != bool(want) or (not auth and status != 401) or \
         (auth and not ident and status < 400)
@@ -458,6 +485,9 @@ def replay(data):
         return True          # finite choices: the path was run concretely
     if data['part'] == 'login':
         return True          # the path was run concretely (the choices are finite)
+    if data['part'] == 'readonly':
+        return bool(readonly_call(data['ep'], data['args'], data['query'], data['user'], data['admin'],
+                                  data['npending'])[0])
     if data['part'] == 'api':
         return api_concrete(data['ep'], data['name'], data['method'], data['case'], data['vals'])
     if data['part'] == 'webhook':
@@ -631,6 +661,116 @@ def eval_api_part(rep, prop):
             break
 
 
+# -- requests that only read ---------------------------------------------------------------------
+def readonly_call(ep, args, query, user, admin, npending):
+    """A GET view with jobs pending and done.  Returns (what changed, status)."""
+    import flask
+    from bert_e.job import PullRequestJob, CommitJob
+    app, berte = get_app()
+    berte.task_queue.queue.clear()
+    pending = []
+    for i in range(npending):
+        j = (PullRequestJob(bert_e=berte, pull_request=types.SimpleNamespace(id=40 + i)) if i % 2 == 0
+             else CommitJob(bert_e=berte, commit='%040x' % (0xc0ffee + i)))
+        berte.task_queue.put(j)
+        pending.append(j)
+    done = [PullRequestJob(bert_e=berte, pull_request=types.SimpleNamespace(id=30 + i)) for i in range(2)]
+    for j in done:
+        j.status = 'NothingToDo'
+    saved_done, saved_status = berte.tasks_done, dict(berte.status)
+    from collections import deque
+    berte.tasks_done = deque(done, maxlen=1000)
+    berte.status['merged PRs'] = [{'id': 30, 'merge_time': __import__('datetime').datetime(2026, 1, 1)}]
+    berte.status['merge queue'] = {'41': [('5.1', 'abc'), ('4.3', 'def')]}
+    before_status = repr(berte.status)
+    changed = []
+    try:
+        with app.test_request_context('/x' + ('?' + query if query else ''), method='GET'):
+            if user:
+                flask.session['user'] = 'someuser'
+            if admin:
+                flask.session['admin'] = True
+            try:
+                resp = app.view_functions[ep](**args)
+                status = resp.status_code if hasattr(resp, 'status_code') else (resp[1] if isinstance(resp, tuple) else 200)
+            except Exception as e:
+                status = getattr(e, 'code', None)
+                if status is None:
+                    status = 500            # what flask answers; the read-only clause is checked all the same
+        now = list(berte.task_queue.queue)
+        if len(now) != len(pending) or any(a is not b for a, b in zip(now, pending)):
+            changed.append('the pending jobs (%s -> %s)' % ([str(j) for j in pending], [str(j) for j in now]))
+        if list(berte.tasks_done) != done:
+            changed.append('the finished jobs')
+        if repr(berte.status) != before_status:
+            changed.append('the status record')
+    finally:
+        berte.task_queue.queue.clear()
+        berte.tasks_done = saved_done
+        berte.status.clear()
+        berte.status.update(saved_status)
+    return changed, status
+
+
+def readonly_targets():
+    app, _ = get_app()
+    out = []
+    for r in app.url_map.iter_rules():
+        if 'GET' not in r.methods or r.endpoint == 'static' or r.endpoint.startswith('loginpass_'):
+            continue            # (the OAuth exchange itself is the login part's business)
+        args = {}
+        for a in r.arguments:
+            args[a] = {'docname': 'user', 'error': None, 'job_id': 'nosuchjob'}.get(a, 'x')
+        out.append((r.endpoint, r.rule, args))
+    return out
+
+
+def readonly_harness(ctx):
+    targets = readonly_targets()
+    ep, rule, args = targets[ctx.choose('view', len(targets))]
+    query = ['', 'output=txt', 'navoff=1'][ctx.choose('query', 3)]
+    user = ctx.decide(z3.Bool('user'))
+    admin = ctx.decide(z3.Bool('admin'))
+    npending = ctx.choose('pending_jobs', 4)
+    changed, status = readonly_call(ep, args, query, user, admin, npending)
+    ctx.stats.obligations += 1
+    return dict(ep=ep, rule=rule, args=args, query=query, user=user, admin=admin, npending=npending,
+                changed=changed, status=status)
+
+
+def readonly_part(rep, prop):
+    """Every registered GET view (status page, management page, documentation, job listings, the
+    OAuth entry points), with 0-3 jobs pending, in every session state: a request that only reads
+    leaves the pending jobs (their identity and their order - the order in which the worker will
+    evaluate them), the finished jobs and the status record as they were."""
+    _quiet()
+    results, st = explore(readonly_harness)
+    rep.add_stats(st, 'requests that only read')
+    rep.functions_encoded += ['server.status.display, server.manage, server.doc, server.api GET views '
+                              '(pending / finished jobs and status record unchanged by a read)']
+    rep.bounds['read-only views'] = dict(views=[r for _, r, _ in readonly_targets()], pending_jobs='0..3',
+                                         query=['', 'output=txt', 'navoff=1'])
+    for rule in ('/', '/manage', '/api/jobs'):
+        if not any(r['status'] == 200 for _, r in results if r['rule'] == rule):
+            rep.error('vacuity: the view %s never answered 200' % rule)
+    seen = set()
+    for _, r in results:
+        if r['changed']:
+            sig = 'a request that only reads (%s) changes %s' % (r['rule'], ' and '.join(
+                c.split(' (')[0] for c in r['changed']))
+            if sig in seen:
+                continue
+            seen.add(sig)
+            data = dict(part='readonly', ep=r['ep'], args=r['args'], query=r['query'], user=r['user'],
+                        admin=r['admin'], npending=r['npending'])
+            rep.cexs.append(Cex(prop, sig, data, bool(readonly_call(r['ep'], r['args'], r['query'], r['user'],
+                                                                    r['admin'], r['npending'])[0]),
+                                'GET %s%s with %d pending job(s): %s' % (r['rule'], '?' + r['query'] if r['query'] else '',
+                                                                         r['npending'], '; '.join(r['changed']))))
+        else:
+            rep.validated += 1
+
+
 def _run_api(cfg):
     _quiet()
     results, st = explore(api_harness(cfg))
@@ -667,6 +807,7 @@ def check(rep):
         rep.error('unmodelled API rule(s): %s' % extra)
     login_part(rep)
     credential_pairs_part(rep)
+    readonly_part(rep, 'C14')
     from . import userdict
     userdict.check(rep, 'C14')          # session['admin'] = user in settings.admins (loaded objects)
     cases = branch_cases(rep)
